@@ -256,7 +256,8 @@ def bounded(pr):
         k = [x / nrm for x in a]
         for t in thetas:
             c, s = math.cos(t), math.sin(t)
-            for v in vecs:
+            # ... and vectors along the axis itself (parallel, antiparallel): they stay where they are
+            for v in vecs + [tuple(x * 1.0 for x in a), tuple(x * -2.5 for x in a)]:
                 ev += 1
                 try:
                     r = va.rotate_vector_around_an_axis(t, va.Vector(*a), va.Vector(*v))
